@@ -4,7 +4,7 @@
 (* is printed as one JSON line (BEH marker) and replayed on the real code.  *)
 EXTENDS Registry, Json
 
-CONSTANTS Depth, Classes, Fallback, CfgSW, CfgNidl, CfgSO
+CONSTANTS Depth, Classes, Fallback, CfgSW, CfgNidl, CfgSO, CfgRmErr
 
 VARIABLES st, hist, done
 
@@ -60,6 +60,8 @@ OpsOf(cls, s) ==
     [] cls = "Strip"      -> {o \in StripOps : s.nodes[o.k].present}
     [] cls = "Tamper"     -> {o \in TamperOps : Apply(s, o).res # "skip"}
     [] cls = "FetchAuth"  -> AuthSet(s)
+    [] cls = "FetchRace"  -> {[op |-> "FetchRace", t |-> t, ka |-> RandomElement(CertKeys), kb |-> RandomElement(CertKeys), e |-> RandomElement(EncKeys),
+                               be |-> IF CfgRmErr THEN "file" ELSE "inmem"] : t \in {x \in Tokens : Live(s.tokens[x])}}
     [] cls = "FetchNear"  -> NearSet(s)
     [] cls = "FetchAny"   -> {Merge(Merge([op |-> "Fetch", k |-> RandomElement(CertKeys), e |-> RandomElement(EncKeys),
                                             n |-> RandomElement(AllNonces), life |-> RandomElement(Lives), selfinfo |-> RandomElement({FALSE, FALSE, TRUE})],
@@ -78,7 +80,7 @@ OpsOf(cls, s) ==
 
 Good(cls, s) == {o \in OpsOf(cls, s) : Apply(s, o).res # "skip"}
 
-Init == st = InitState([sw |-> CfgSW, nidl |-> CfgNidl, so |-> CfgSO]) /\ hist = <<>> /\ done = FALSE
+Init == st = InitState([sw |-> CfgSW, nidl |-> CfgNidl, so |-> CfgSO, rmerr |-> CfgRmErr]) /\ hist = <<>> /\ done = FALSE
 
 Step ==
   /\ Len(hist) < Depth
